@@ -22,6 +22,7 @@ package plugin
 
 import (
 	"fmt"
+	"path/filepath"
 	"strings"
 	"sync"
 
@@ -96,6 +97,8 @@ func (msg MultiServiceGenerator) Generate(req *api.GenerateServiceRequest) (*api
 
 		pluginName := sg.Handle().Name()
 		for path, contents := range res.Files {
+			// Different spellings of one path name the same output file.
+			path = strings.TrimPrefix(filepath.Clean(string(filepath.Separator)+path), string(filepath.Separator))
 			if takenBy, taken := usedPaths[path]; taken {
 				return fmt.Errorf("plugin conflict: cannot write file %q for plugin %q: "+
 					"plugin %q already wrote to that file", path, pluginName, takenBy)
